@@ -1,7 +1,7 @@
 (* core/src/language/typescript.rs, function by function. Output is text (str). *)
 From Coq Require Import String.
 From TS Require Import Model.Str Model.Outcome Model.Unicode Model.Types Model.Parse Model.Rename
-                       Model.TopsortAlgo Model.Topsort Model.Lang.Common.
+                       Model.TopsortAlgo Model.Topsort Model.Lang.Common Model.Lang.Decl.
 
 Record ts_config := { ts_type_mappings : tmap; ts_no_version_header : bool; ts_version : str }.
 
@@ -63,59 +63,83 @@ Variable uc : unicode.
 Variable cfg : ts_config.
 Notation TM := (M ts_state).
 
-(* format_type / format_simple_type / format_generic_type (mod.rs defaults) and
-   typescript.rs:78 format_special_type *)
-Fixpoint ts_format_type (generics : list str) (t : rtype) : TM str :=
-  let special_mapped (k : TM str) : TM str :=
+(* ---- target type expressions: format_type / format_simple_type / format_generic_type (mod.rs
+   defaults) and typescript.rs:78 format_special_type, building a tree; [ts_show] prints it ---- *)
+Fixpoint ts_show (x : texp) : str :=
+  match x with
+  | XName n [] => n
+  | XName n args => n ++ lit "<" ++ join (lit ", ") (map ts_show args) ++ lit ">"
+  | XSeq e => ts_show e ++ lit "[]"
+  | XFixed es => lit "[" ++ join (lit ", ") (map ts_show es) ++ lit "]"
+  | XMap k v => lit "Record<" ++ ts_show k ++ lit ", " ++ ts_show v ++ lit ">"
+  | XOpt e => ts_show e
+  | XRaw t => t
+  end.
+
+Fixpoint ts_texp (generics : list str) (t : rtype) : TM texp :=
+  let special_mapped (k : TM texp) : TM texp :=
     match tmap_get (ts_type_mappings cfg) (rtype_display t) with
     | Some mapped =>
       mdo st <- mget;
       mdo _ <- (if has_custom_translation mapped then mput (tsmap_set st mapped []) else ret tt);
-      ret mapped
+      ret (XRaw mapped)
     | None => k
     end in
   match t with
-  | RSimple id => ret (match tmap_get (ts_type_mappings cfg) id with Some m => m | None => id end)
+  | RSimple id => ret (match tmap_get (ts_type_mappings cfg) id with Some m => XRaw m | None => XName id [] end)
   | RGeneric id ps =>
     match tmap_get (ts_type_mappings cfg) id with
-    | Some m => ret m
+    | Some m => ret (XRaw m)                       (* a mapped generic type drops its arguments *)
     | None =>
-      mdo parts <- (fix go (l : list rtype) : TM (list str) :=
+      mdo parts <- (fix go (l : list rtype) : TM (list texp) :=
                       match l with
                       | [] => ret []
-                      | x :: r => mdo y <- ts_format_type generics x; mdo ys <- go r; ret (y :: ys)
+                      | x :: r => mdo y <- ts_texp generics x; mdo ys <- go r; ret (y :: ys)
                       end) ps;
-      ret (id ++ match parts with [] => [] | _ => lit "<" ++ join (lit ", ") parts ++ lit ">" end)
+      ret (XName id parts)
     end
-  | RVec x => special_mapped (mdo s <- ts_format_type generics x; ret (s ++ lit "[]"))
-  | RArray x n => special_mapped (mdo s <- ts_format_type generics x;
-                                  ret (lit "[" ++ join (lit ", ") (repeat s (N.to_nat n)) ++ lit "]"))
-  | RSlice x => special_mapped (mdo s <- ts_format_type generics x; ret (s ++ lit "[]"))
-  | ROption x => special_mapped (ts_format_type generics x)
+  | RVec x => special_mapped (mdo e <- ts_texp generics x; ret (XSeq e))
+  | RArray x n => special_mapped (mdo e <- ts_texp generics x; ret (XFixed (repeat e (N.to_nat n))))
+  | RSlice x => special_mapped (mdo e <- ts_texp generics x; ret (XSeq e))
+  (* "We add optionality above the type formatting level": Option<T> formats as T *)
+  | ROption x => special_mapped (ts_texp generics x)
   | RHashMap k v =>
     special_mapped
       (mdo ks <- match k with
                  | RSimple id => if mem_str id generics then fail (EGenericKeyForbiddenInTS id)
-                                 else ts_format_type generics k
-                 | _ => ts_format_type generics k
+                                 else ts_texp generics k
+                 | _ => ts_texp generics k
                  end;
-       mdo vs <- ts_format_type generics v;
-       ret (lit "Record<" ++ ks ++ lit ", " ++ vs ++ lit ">"))
+       mdo vs <- ts_texp generics v;
+       ret (XMap ks vs))
   | RPrim p =>
     special_mapped
       match p with
-      | PUnit => ret (lit "undefined")
-      | PDateTime => ret (lit "Date")
-      | PString | PChar => ret (lit "string")
-      | PI8 | PU8 | PI16 | PU16 | PI32 | PU32 | PI54 | PU53 | PF32 | PF64 => ret (lit "number")
-      | PBool => ret (lit "boolean")
+      | PUnit => ret (XName (lit "undefined") [])
+      | PDateTime => ret (XName (lit "Date") [])
+      | PString | PChar => ret (XName (lit "string") [])
+      | PI8 | PU8 | PI16 | PU16 | PI32 | PU32 | PI54 | PU53 | PF32 | PF64 => ret (XName (lit "number") [])
+      | PBool => ret (XName (lit "boolean") [])
       | PU64 | PI64 | PISize | PUSize => mpanic "typescript.rs:137"
       end
   end.
 
-(* typescript.rs:440 *)
-Definition typescript_property_aware_rename (name : str) : str :=
-  if contains_char ch_dash name then debug_str name else name.
+Definition ts_format_type (generics : list str) (t : rtype) : TM str :=
+  mdo x <- ts_texp generics t; ret (ts_show x).
+
+(* ---- declarations (decisions) ---- *)
+Record ts_member := { tm_docs : list str; tm_readonly : bool; tm_key : str; tm_optional : bool;
+                      tm_type : texp; tm_null_union : bool }.
+Inductive ts_variant :=
+| TVUnit (docs : list str) (wire : str)
+| TVTuple (docs : list str) (wire : str) (ty : texp) (optional : bool)
+| TVStruct (docs : list str) (wire : str) (ms : list ts_member).
+Inductive ts_decl :=
+| TSInterface (docs : list str) (name : str) (generics : list str) (ms : list ts_member)
+| TSAlias (docs : list str) (name : str) (generics : list str) (ty : texp) (or_undefined : bool)
+| TSConst (name : str) (ty : texp) (value : str)
+| TSUnitEnum (docs : list str) (name : str) (generics : list str) (vs : list (list str * str * str))  (* docs, case name, wire value *)
+| TSUnion (docs : list str) (name : str) (generics : list str) (tag content : str) (vs : list ts_variant).
 
 Definition ts_is_readonly (f : rfield) : bool :=
   match lookup_lang TypeScript (fdecs f) with
@@ -123,88 +147,134 @@ Definition ts_is_readonly (f : rfield) : bool :=
   | None => false
   end.
 
-(* typescript.rs:327 write_field *)
-Definition ts_write_field (generics : list str) (f : rfield) : TM str :=
-  mdo ts_ty <- match type_override f TypeScript with
-               | Some o => ret o
-               | None => ts_format_type generics (fty f)
-               end;
+(* typescript.rs:327 write_field: decisions *)
+Definition ts_member_of (generics : list str) (f : rfield) : TM ts_member :=
+  mdo ty <- match type_override f TypeScript with
+            | Some o => ret (XRaw o)
+            | None => ts_texp generics (fty f)
+            end;
+  let ts_ty := ts_show ty in
   mdo st <- mget;
   mdo _ <- (if has_custom_translation ts_ty then
               let cur := match tsmap_get st ts_ty with Some ids => ids | None => [] end in
               mput (tsmap_set st ts_ty (sset_insert (renamed (fid f)) cur))
             else ret tt);
-  let optional := is_optional (fty f) || has_default f in
-  ret (ts_comments 1 (fcomments f) ++
-       [ch_tab] ++ (if ts_is_readonly f then lit "readonly " else []) ++
-       typescript_property_aware_rename (renamed (fid f)) ++
-       (if optional then lit "?" else []) ++ lit ": " ++ ts_ty ++
-       (if is_double_optional (fty f) then lit " | null" else []) ++ lit ";" ++ nl).
+  ret {| tm_docs := fcomments f; tm_readonly := ts_is_readonly f; tm_key := renamed (fid f);
+         tm_optional := is_optional (fty f) || has_default f; tm_type := ty;
+         tm_null_union := is_double_optional (fty f) |}.
 
-(* typescript.rs:152 write_type_alias *)
-Definition ts_write_type_alias (a : ralias) : TM str :=
-  mdo ty <- ts_format_type (agenerics a) (atype a);
-  ret (ts_comments 0 (acomments a) ++
-       lit "export type " ++ renamed (aid a) ++ generics_suffix (agenerics a) ++ lit " = " ++ ty ++
-       (if is_optional (atype a) then lit " | undefined" else []) ++ lit ";" ++ nl ++ nl).
-
-(* typescript.rs:176 write_const *)
-Definition ts_write_const (c : rconst) : TM str :=
-  mdo ty <- ts_format_type [] (ctype c);
-  ret (lit "export const " ++ str_to_uppercase uc (to_snake_case uc (renamed (cid c))) ++ lit ": " ++ ty ++
-       lit " = " ++ dec_of_Z (cvalue c) ++ lit ";" ++ nl).
-
-(* typescript.rs:193 write_struct *)
-Definition ts_write_struct (s : rstruct) : TM str :=
-  mdo body <- mconcat (ts_write_field (sgenerics s)) (sfields s);
-  ret (ts_comments 0 (scomments s) ++
-       lit "export interface " ++ renamed (sid s) ++ generics_suffix (sgenerics s) ++ lit " {" ++ nl ++
-       body ++ lit "}" ++ nl ++ nl).
-
-(* typescript.rs:266 write_enum_variants *)
-Definition ts_write_variant_unit_enum (v : rvariant) : TM str :=
+Definition ts_variant_of (generics : list str) (unit_enum : bool) (v : rvariant) : TM ts_variant :=
   match v with
-  | VUnit sh => ret (nl ++ ts_comments 1 (vcomments sh) ++ [ch_tab] ++ original (vid sh) ++ lit " = " ++
-                     debug_str (renamed (vid sh)) ++ lit ",")
-  | _ => mpanic "typescript.rs:276"
-  end.
-Definition ts_write_variant_algebraic (tag content : str) (generics : list str) (v : rvariant) : TM str :=
-  let head := nl ++ ts_comments 1 (vcomments (variant_shared v)) in
-  match v with
-  | VUnit sh =>
-    ret (head ++ [ch_tab] ++ lit "| { " ++ tag ++ lit ": " ++ debug_str (renamed (vid sh)) ++ lit ", " ++
-         content ++ lit "?: undefined }")
-  | VTuple t sh =>
-    mdo ty <- ts_format_type generics t;
-    ret (head ++ [ch_tab] ++ lit "| { " ++ tag ++ lit ": " ++ debug_str (renamed (vid sh)) ++ lit ", " ++
-         content ++ (if is_optional t then lit "?" else []) ++ lit ": " ++ ty ++ lit " }")
-  | VAnon fs sh =>
-    mdo body <- mconcat (ts_write_field generics) fs;
-    ret (head ++ [ch_tab] ++ lit "| { " ++ tag ++ lit ": " ++ debug_str (renamed (vid sh)) ++ lit ", " ++
-         content ++ lit ": {" ++ nl ++ body ++ lit "}" ++ lit "}")
+  | VUnit sh => ret (TVUnit (vcomments sh) (renamed (vid sh)))
+  | VTuple t sh => mdo ty <- ts_texp generics t; ret (TVTuple (vcomments sh) (renamed (vid sh)) ty (is_optional t))
+  | VAnon fs sh => mdo ms <- mmapM (ts_member_of generics) fs; ret (TVStruct (vcomments sh) (renamed (vid sh)) ms)
   end.
 
-(* typescript.rs:211 write_enum *)
-Definition ts_write_enum (e : renum) : TM str :=
-  let sh := enum_shared e in
-  let gp := generics_suffix (egenerics sh) in
-  match e with
-  | EUnit _ =>
-    mdo vs <- mconcat ts_write_variant_unit_enum (evariants sh);
-    ret (ts_comments 0 (ecomments sh) ++ lit "export enum " ++ renamed (eid sh) ++ gp ++ lit " {" ++ vs ++
-         nl ++ lit "}" ++ nl ++ nl)
-  | EAlgebraic tag content _ =>
-    mdo vs <- mconcat (ts_write_variant_algebraic tag content (egenerics sh)) (evariants sh);
-    ret (ts_comments 0 (ecomments sh) ++ lit "export type " ++ renamed (eid sh) ++ gp ++ lit " = " ++ vs ++
-         lit ";" ++ nl ++ nl)
-  end.
-
-Definition ts_write_item (it : ritem) : TM str :=
+Definition ts_decl_of (it : ritem) : TM ts_decl :=
   match it with
-  | ItEnum e => ts_write_enum e
-  | ItStruct s => ts_write_struct s
-  | ItAlias a => ts_write_type_alias a
-  | ItConst c => ts_write_const c
+  | ItStruct s =>
+    mdo ms <- mmapM (ts_member_of (sgenerics s)) (sfields s);
+    ret (TSInterface (scomments s) (renamed (sid s)) (sgenerics s) ms)
+  | ItAlias a =>
+    mdo ty <- ts_texp (agenerics a) (atype a);
+    ret (TSAlias (acomments a) (renamed (aid a)) (agenerics a) ty (is_optional (atype a)))
+  | ItConst c =>
+    mdo ty <- ts_texp [] (ctype c);
+    ret (TSConst (str_to_uppercase uc (to_snake_case uc (renamed (cid c)))) ty (dec_of_Z (cvalue c)))
+  | ItEnum (EUnit sh) =>
+    mdo vs <- mmapM (fun v => match v with
+                              | VUnit vsh => ret (vcomments vsh, original (vid vsh), renamed (vid vsh))
+                              | _ => mpanic "typescript.rs:276"
+                              end) (evariants sh);
+    ret (TSUnitEnum (ecomments sh) (renamed (eid sh)) (egenerics sh) vs)
+  | ItEnum (EAlgebraic tag content sh) =>
+    mdo vs <- mmapM (ts_variant_of (egenerics sh) false) (evariants sh);
+    ret (TSUnion (ecomments sh) (renamed (eid sh)) (egenerics sh) tag content vs)
+  end.
+
+(* ---- rendering (layout only) ---- *)
+(* typescript.rs:440 typescript_property_aware_rename *)
+Definition typescript_property_aware_rename (name : str) : str :=
+  if contains_char ch_dash name then debug_str name else name.
+
+Definition ts_render_member (m : ts_member) : str :=
+  ts_comments 1 (tm_docs m) ++
+  [ch_tab] ++ (if tm_readonly m then lit "readonly " else []) ++
+  typescript_property_aware_rename (tm_key m) ++
+  (if tm_optional m then lit "?" else []) ++ lit ": " ++ ts_show (tm_type m) ++
+  (if tm_null_union m then lit " | null" else []) ++ lit ";" ++ nl.
+
+Definition ts_render_variant (tag content : str) (v : ts_variant) : str :=
+  match v with
+  | TVUnit docs wire =>
+    nl ++ ts_comments 1 docs ++ [ch_tab] ++ lit "| { " ++ tag ++ lit ": " ++ debug_str wire ++ lit ", " ++
+    content ++ lit "?: undefined }"
+  | TVTuple docs wire ty opt =>
+    nl ++ ts_comments 1 docs ++ [ch_tab] ++ lit "| { " ++ tag ++ lit ": " ++ debug_str wire ++ lit ", " ++
+    content ++ (if opt then lit "?" else []) ++ lit ": " ++ ts_show ty ++ lit " }"
+  | TVStruct docs wire ms =>
+    nl ++ ts_comments 1 docs ++ [ch_tab] ++ lit "| { " ++ tag ++ lit ": " ++ debug_str wire ++ lit ", " ++
+    content ++ lit ": {" ++ nl ++ List.concat (map ts_render_member ms) ++ lit "}" ++ lit "}"
+  end.
+
+Definition ts_render_decl (d : ts_decl) : str :=
+  match d with
+  | TSInterface docs name gs ms =>
+    ts_comments 0 docs ++ lit "export interface " ++ name ++ generics_suffix gs ++ lit " {" ++ nl ++
+    List.concat (map ts_render_member ms) ++ lit "}" ++ nl ++ nl
+  | TSAlias docs name gs ty undef =>
+    ts_comments 0 docs ++ lit "export type " ++ name ++ generics_suffix gs ++ lit " = " ++ ts_show ty ++
+    (if undef then lit " | undefined" else []) ++ lit ";" ++ nl ++ nl
+  | TSConst name ty value =>
+    lit "export const " ++ name ++ lit ": " ++ ts_show ty ++ lit " = " ++ value ++ lit ";" ++ nl
+  | TSUnitEnum docs name gs vs =>
+    ts_comments 0 docs ++ lit "export enum " ++ name ++ generics_suffix gs ++ lit " {" ++
+    List.concat (map (fun v => let '(vdocs, case, wire) := v in
+                               nl ++ ts_comments 1 vdocs ++ [ch_tab] ++ case ++ lit " = " ++ debug_str wire ++ lit ",") vs) ++
+    nl ++ lit "}" ++ nl ++ nl
+  | TSUnion docs name gs tag content vs =>
+    ts_comments 0 docs ++ lit "export type " ++ name ++ generics_suffix gs ++ lit " = " ++
+    List.concat (map (ts_render_variant tag content) vs) ++ lit ";" ++ nl ++ nl
+  end.
+
+(* write_struct / write_enum / write_type_alias / write_const = render of the declaration *)
+Definition ts_write_item (it : ritem) : TM str :=
+  mdo d <- ts_decl_of it; ret (ts_render_decl d).
+
+(* ---- observation: the language-independent view of a declaration ---- *)
+Definition ts_obs_member (m : ts_member) : member :=
+  {| mb_name := tm_key m; mb_escaped := false; mb_key := tm_key m;
+     mb_binding := if contains_char ch_dash (tm_key m) then BQuoted else BName;
+     mb_optional := tm_optional m; mb_type := tm_type m; mb_docs := tm_docs m |}.
+Definition ts_obs_variant (v : ts_variant) : variantd :=
+  match v with
+  | TVUnit docs wire => {| vd_name := wire; vd_wire := wire; vd_payload := PayUnit; vd_parent := None; vd_docs := docs |}
+  | TVTuple docs wire ty opt => {| vd_name := wire; vd_wire := wire; vd_payload := PayNewtype ty opt; vd_parent := None; vd_docs := docs |}
+  | TVStruct docs wire ms => {| vd_name := wire; vd_wire := wire; vd_payload := PayInline (map ts_obs_member ms); vd_parent := None; vd_docs := docs |}
+  end.
+Definition ts_obs (d : ts_decl) : decl :=
+  let base k name gs docs := {| d_kind := k; d_name := name; d_escaped := false; d_generics := gs; d_docs := docs; d_members := [];
+                                d_variants := []; d_tag_keys := []; d_content_keys := []; d_type := None; d_value := None |} in
+  match d with
+  | TSInterface docs name gs ms =>
+    {| d_kind := DStruct; d_name := name; d_escaped := false; d_generics := gs; d_docs := docs; d_members := map ts_obs_member ms;
+       d_variants := []; d_tag_keys := []; d_content_keys := []; d_type := None; d_value := None |}
+  | TSAlias docs name gs ty undef =>
+    {| d_kind := DAlias; d_name := name; d_escaped := false; d_generics := gs; d_docs := docs; d_members := [];
+       d_variants := []; d_tag_keys := []; d_content_keys := []; d_type := Some ty; d_value := None |}
+  | TSConst name ty value =>
+    {| d_kind := DConst; d_name := name; d_escaped := false; d_generics := []; d_docs := []; d_members := [];
+       d_variants := []; d_tag_keys := []; d_content_keys := []; d_type := Some ty; d_value := Some value |}
+  | TSUnitEnum docs name gs vs =>
+    {| d_kind := DEnum; d_name := name; d_escaped := false; d_generics := gs; d_docs := docs; d_members := [];
+       d_variants := map (fun v => let '(vdocs, case, wire) := v in
+                                   {| vd_name := case; vd_wire := wire; vd_payload := PayUnit; vd_parent := None; vd_docs := vdocs |}) vs;
+       d_tag_keys := []; d_content_keys := []; d_type := None; d_value := None |}
+  | TSUnion docs name gs tag content vs =>
+    {| d_kind := DEnum; d_name := name; d_escaped := false; d_generics := gs; d_docs := docs; d_members := [];
+       d_variants := map ts_obs_variant vs;
+       d_tag_keys := map (fun _ => tag) vs; d_content_keys := map (fun _ => content) vs;   (* spelled once per variant *)
+       d_type := None; d_value := None |}
   end.
 
 (* typescript.rs:142 begin_file *)
@@ -238,4 +308,17 @@ Definition ts_generate (pd : parsed) : outcome str :=
   | Err e => Err e
   | Panic p => Panic p
   end.
+
+(* the declarations of a whole file (what the file DECLARES), and the helpers it defines *)
+Definition ts_decls (pd : parsed) : outcome (list ts_decl * ts_state) :=
+  do items <- topsort (items_of pd);
+  mmapM ts_decl_of items [].
+
+Definition ts_file_decls (pd : parsed) : outcome file_decls :=
+  do r <- ts_decls pd;
+  let '(ds, st) := r in
+  Ok {| fd_header := if ts_no_version_header cfg then [] else [lit "Generated by typeshare " ++ ts_version cfg];
+        fd_imports := [];
+        fd_decls := map ts_obs ds;
+        fd_helper_defs := match st with [] => [] | _ => [lit "ReviverFunc"; lit "ReplacerFunc"] end |}.
 End TS.
